@@ -258,16 +258,48 @@ def appendTrailers (w : MD) (md : MD) : MD := appendHeaders w md
 def grpcStatusKey : Bytes := [103,114,112,99,45,115,116,97,116,117,115]
 def grpcMessageKey : Bytes := [103,114,112,99,45,109,101,115,115,97,103,101]
 
+/-- How the target's stream ends.  `hdrSent = false` is a gRPC Trailers-Only response (the stream's
+    `Header()` is empty, everything the target attached comes through `Trailer()`); `msgs` messages are
+    received before the end; `ok` = the stream ends with `io.EOF`, otherwise with an error status. -/
+structure Script where
+  hdrSent : Bool := true
+  msgs : Nat := 1
+  ok : Bool := true
+deriving Repr, DecidableEq
+
+/-- what `outgoing.Header()` reports -/
+def Script.header (s : Script) (hdr : MD) : MD := if s.hdrSent then hdr else []
+
+/-- Response half of `ProxyForwarder.Forward` (`forwardOutgoingToIncoming` / `forwardUnaryResponse`):
+    (argument of `Incoming.SetHeader`, argument of `Incoming.SetTrailer` when it is called, number of
+    messages passed to `Incoming.Send`).  Headers come from `Header()` only, trailers from `Trailer()`
+    only, whatever the outcome of the call. -/
+def forwardResponse (o : Opts) (streaming : Bool) (s : Script) (hdr trl : MD) : MD × Option MD × Nat :=
+  let h := filterResponseMD o (s.header hdr)
+  let t := filterTrailerMD o trl
+  if streaming then (h, some t, s.msgs)            -- header at the first Recv, trailer at the failing/last Recv
+  else if s.msgs ≥ 2 then (h, none, 1)             -- misbehaving unary target: second message ⇒ no trailers
+  else (h, some t, if s.msgs == 1 && s.ok then 1 else 0)
+
+def optMD : Option MD → MD
+  | none => []
+  | some m => m
+
 /-- What the client can observe that originates in target metadata: (headers, trailers).
-    `unary` = the call took `forwardUnaryResponse` (both MDs are set before the body is written). -/
-def clientVisible (e : Entry) (o : Opts) (unary : Bool) (hdr trl : MD) : MD × MD :=
-  let fh := filterResponseMD o hdr
-  let ft := filterTrailerMD o trl
-  match e with
-  | .http => if unary then (appendHeaders (appendHeaders [] fh) ft, []) else (appendHeaders [] fh, appendTrailers [] ft)
-  | .ws => ([], [])
-  | .grpcweb => (appendHeaders [] fh, ft)       -- trailers: gRPC-Web trailer frame, keys as in the MD
-  | .grpcws => (fh, ft)                          -- header frame + trailer frame, keys as in the MD
-  | .proxy => (fh, ft)                           -- grpc SetHeader / SetTrailer
+    HTTP: `SetTrailer` before the first body byte (unary path, or no message delivered) ⇒ trailer MD is
+    sent as headers; afterwards ⇒ `Trailer:`-prefixed HTTP trailers.  gRPC-WebSocket: the header frame is
+    only written in front of the first message. -/
+def clientVisible (e : Entry) (o : Opts) (streaming : Bool) (s : Script) (hdr trl : MD) : MD × MD :=
+  match forwardResponse o streaming s hdr trl with
+  | (fh, ft?, n) =>
+    let ft := optMD ft?
+    match e with
+    | .http =>
+      if streaming && n > 0 then (appendHeaders [] fh, appendTrailers [] ft)
+      else (appendHeaders (appendHeaders [] fh) ft, [])
+    | .ws => ([], [])
+    | .grpcweb => (appendHeaders [] fh, ft)       -- trailers: gRPC-Web trailer frame, keys as in the MD
+    | .grpcws => (if n > 0 then fh else [], ft)   -- header frame (with the first message) + trailer frame
+    | .proxy => (fh, ft)                           -- grpc SetHeader / SetTrailer
 
 end GB.C07
